@@ -33,7 +33,8 @@ Record dec := mkDec {
   d_ref : rdec;
   d_x : xdec;
   d_left : bool;   (* mc-cnn occlusion: the `else` branch (valid pixel found on the left) *)
-  d_fill : bool;   (* mc-cnn occlusion: msk[arg_valid] (a valid pixel exists) *)
+  d_fill : bool;   (* occlusion: a valid pixel exists (mc-cnn: msk[arg_valid]; sgm: two valid neighbours) *)
+  d_fillm : bool;  (* mismatch: some path reaches a valid pixel (mc-cnn: 16 paths, sgm: 8 paths) *)
   d_near : bool;   (* sgm mismatch: an occlusion in the 3x3 neighbourhood *)
   d_reg : bool     (* median_for_intervals: pixel in mask_regularization *)
 }.
@@ -88,25 +89,29 @@ Section Steps.
     else m.
 
   (* interpolate_mismatch_mc_cnn *)
-  Definition t_mc_mism (m : Z) : Z :=
-    if has m K_MISMATCH then fire E R_mcm_add (fire E R_mcm_sub m true) true else m.
+  Definition t_mc_mism (d : dec) (m : Z) : Z :=
+    if has m K_MISMATCH then
+      if d_fillm d then fire E R_mcm_add (fire E R_mcm_sub m true) true else m
+    else m.
 
   (* interpolate_mismatch_sgm *)
   Definition t_sgm_mism (d : dec) (m : Z) : Z :=
     if has m K_MISMATCH then
       if d_near d then fire E R_sgm_add_o (fire E R_sgm_sub_o m true) true
-      else fire E R_sgm_add_f (fire E R_sgm_sub_f m true) true
+      else if d_fillm d then fire E R_sgm_add_f (fire E R_sgm_sub_f m true) true else m
     else m.
 
   (* interpolate_occlusion_sgm *)
-  Definition t_sgm_occl (m : Z) : Z :=
-    if has m K_OCCLUSION then fire E R_sgo_add (fire E R_sgo_sub m true) true else m.
+  Definition t_sgm_occl (d : dec) (m : Z) : Z :=
+    if has m K_OCCLUSION then
+      if d_fill d then fire E R_sgo_add (fire E R_sgo_sub m true) true else m
+    else m.
 
   Definition t_interp (i : imeth) (offpos border : bool) (d : dec) (m : Z) : Z :=
     match i with
     | INone => m
-    | IMcCnn => t_border offpos border (t_mc_mism (t_mc_occl d m))
-    | ISgm => t_sgm_occl (t_sgm_mism d m)
+    | IMcCnn => t_border offpos border (t_mc_mism d (t_mc_occl d m))
+    | ISgm => t_sgm_occl d (t_sgm_mism d m)
     end.
 
   Definition t_mfi (d : dec) (m : Z) : Z := if d_reg d then fire E R_mfi_or m true else m.
@@ -118,6 +123,73 @@ Section Steps.
     | SRef => t_refine d m
     | SVal i => t_interp i offpos border d (t_border offpos border (t_xcheck d m))
     | SMsc => m
+    end.
+
+  (* ---- the same steps, answering "was every += / -= of the step carry-free on this pixel?"
+     (each [fire] of the functions above, in the same order, checked by [fire_ok] on the flag it
+     is applied to) *)
+  Definition ok_refine (d : dec) (m : Z) : bool :=
+    if has m K_INVALID then true
+    else match d_ref d with
+         | RNan => true
+         | RMethod b => fire_ok E R_ref_method m b
+         | RBound => fire_ok E R_ref_stopped m true
+         end.
+
+  Definition ok_xcheck (d : dec) (m : Z) : bool :=
+    if has m K_INVALID then true
+    else match d_x d with
+         | XOk => true
+         | XInval comp =>
+           let m1 := fire E R_xc_occl m true in
+           let m2 := fire E R_xc_mism m1 comp in
+           fire_ok E R_xc_occl m true && fire_ok E R_xc_mism m1 comp && fire_ok E R_xc_unoccl m2 comp
+         | XOutside => fire_ok E R_xc_outside m true
+         end.
+
+  Definition ok_mc_occl (d : dec) (m : Z) : bool :=
+    if has m K_OCCLUSION then
+      if d_left d then fire_ok E R_mco_sub_l m (d_fill d) && fire_ok E R_mco_add_l (fire E R_mco_sub_l m (d_fill d)) (d_fill d)
+      else fire_ok E R_mco_sub_r m (d_fill d) && fire_ok E R_mco_add_r (fire E R_mco_sub_r m (d_fill d)) (d_fill d)
+    else true.
+
+  Definition ok_mc_mism (d : dec) (m : Z) : bool :=
+    if has m K_MISMATCH then
+      if d_fillm d then fire_ok E R_mcm_sub m true && fire_ok E R_mcm_add (fire E R_mcm_sub m true) true else true
+    else true.
+
+  Definition ok_sgm_mism (d : dec) (m : Z) : bool :=
+    if has m K_MISMATCH then
+      if d_near d then fire_ok E R_sgm_sub_o m true && fire_ok E R_sgm_add_o (fire E R_sgm_sub_o m true) true
+      else if d_fillm d then fire_ok E R_sgm_sub_f m true && fire_ok E R_sgm_add_f (fire E R_sgm_sub_f m true) true
+           else true
+    else true.
+
+  Definition ok_sgm_occl (d : dec) (m : Z) : bool :=
+    if has m K_OCCLUSION then
+      if d_fill d then fire_ok E R_sgo_sub m true && fire_ok E R_sgo_add (fire E R_sgo_sub m true) true else true
+    else true.
+
+  Definition ok_interp (i : imeth) (d : dec) (m : Z) : bool :=
+    match i with
+    | INone => true
+    | IMcCnn => ok_mc_occl d m && ok_mc_mism d (t_mc_occl d m)
+    | ISgm => ok_sgm_mism d m && ok_sgm_occl d (t_sgm_mism d m)
+    end.
+
+  (* (mask_border and median_for_intervals write with `=` and `|=`: nothing to check) *)
+  Definition ok_step (offpos border : bool) (s : fstep) (d : dec) (m : Z) : bool :=
+    match s with
+    | SFlt _ => true
+    | SRef => ok_refine d m
+    | SVal i => ok_xcheck d m && ok_interp i d (t_border offpos border (t_xcheck d m))
+    | SMsc => true
+    end.
+
+  Fixpoint ok_flags (offpos border : bool) (p : list (fstep * dec)) (m : Z) : bool :=
+    match p with
+    | [] => true
+    | (s, d) :: r => ok_step offpos border s d m && ok_flags offpos border r (t_step offpos border s d m)
     end.
 
   (* the disparity-map part of a pipeline on one pixel: steps with the decision taken at each *)
